@@ -82,7 +82,10 @@ def rule_who_constructs(fx, rep):
             if ty not in POINT_TYPES:
                 continue
             for w in r.d.partial[l]:
-                writers.setdefault(b.path, set()).add(POINT_TYPES[ty])
+                # a store to a coordinate (field projection); `*p = q` replaces the whole point by another point value
+                pl_ = w[3]['place'] if w[0] in ('assign', 'setdiscr') else w[2]['dest']
+                if any(e[0] == 'f' for e in pl_['p']):
+                    writers.setdefault(b.path, set()).add(POINT_TYPES[ty])
             for (bi, si, s) in r.d.mut_borrows[l]:
                 if s['rv']['place']['p'] and any(e[0] == 'f' for e in s['rv']['place']['p']):
                     writers.setdefault(b.path, set()).add(POINT_TYPES[ty])
